@@ -2,7 +2,7 @@
 # tools_matrix.sh [jobs] -- development aid: re-run the detecting quick-tier harness of every seeded change against a scratch
 # worktree carrying the change (tools_mutrun.sh), one line per seed in /tmp/mutev/matrix.summary; worktrees are removed.
 export VERIF_JOBS="${1:-6}"
-cd /verif
+cd "${VROOT:-/verif}"
 out=/tmp/mutev/matrix.summary
 mkdir -p /tmp/mutev; : > "$out"
 run() {
